@@ -125,9 +125,11 @@ def check_views(ctx, cfg, rule="C02.V"):
         good = bool(rets) and n is not None and all(is_full_view(r["val"], ("arg", 1), n) for r in rets)
         # the view must be built without consulting anything but self: no effectful call (pointer/slice constructors are pure)
         extra = [c.fn for c in payload_calls(a) if not a.is_pure(c) and not getattr(c, "no_effects", False)]
-        st = PROVED if good and not extra else REFUTED
-        ctx.ob(rule, key, st, "returns %s; expected ptr(self + 0 bytes, len %r)%s" % (
-            ", ".join(vstr(r["val"]) for r in rets), n, "; unexpected calls " + ",".join(extra) if extra else ""), at=b["at"], cfg=cfg)
+        # a view exists for EVERY array (any length, any element type - zero-sized ones included): no check in it may be able to fail
+        pan = reachable_panics(a)
+        st = PROVED if good and not extra and not pan else REFUTED
+        ctx.ob(rule, key, st, "returns %s; expected ptr(self + 0 bytes, len %r)%s%s" % (
+            ", ".join(vstr(r["val"]) for r in rets), n, "; unexpected calls " + ",".join(extra) if extra else "", ("; can panic: %s" % pan) if pan else ""), at=b["at"], cfg=cfg)
         ok = ok and st == PROVED
     return ok
 
